@@ -200,10 +200,12 @@ def check(col: Collector, tier: str):
         for c in walk_no_nested(f.node):
             if isinstance(c, ast.Call) and call_name(c) == "CPPCodeSpecification":
                 specs.append((f.short, f.module, c))
-    mu = repo.mod("common.math_utils")
-    for n_ in mu.tree.body:
-        if isinstance(n_, ast.Assign) and isinstance(n_.value, ast.Call) and call_name(n_.value) == "CPPCodeSpecification":
-            specs.append((src(n_.targets[0]), mu, n_.value))
+    # ... and the ones bound at module level (DeltaRSpec; a specification moved out of its function is the same specification)
+    for mu in repo.modules.values():
+        for n_ in mu.tree.body:
+            if isinstance(n_, (ast.Assign, ast.AnnAssign)) and isinstance(n_.value, ast.Call) and call_name(n_.value) == "CPPCodeSpecification":
+                tg_ = n_.targets[0] if isinstance(n_, ast.Assign) else n_.target
+                specs.append((src(tg_), mu, n_.value))
     if len(specs) < 3:
         raise AnalysisError(f"only {len(specs)} built-in CPPCodeSpecification found")
     fields = ["name", "include_files", "arguments", "code", "result", "cpp_return_type", "cpp_return_is_collection", "method_object", "instance_object"]
@@ -267,7 +269,24 @@ def check(col: Collector, tier: str):
         for k, v in zip(rets[0].value.keys, rets[0].value.values):
             used = [x.id for x in ast.walk(v) if isinstance(x, ast.Name)]
             reg[const_str(k)] = used
-    ok = "get_attribute_float" in reg.get("getAttributeFloat", []) and "get_attribute_vector_float" in reg.get("getAttributeVectorFloat", []) and "getAttribute" in reg
+    # which specification stands behind a name (a local of the function or a module-level constant, whatever it is called): the scalar accessor
+    # must deliver a value, the vector accessor a collection
+    def spec_behind(names):
+        for nm_ in names:
+            ds_ = [d for d in defs_of(jm.node, nm_)] + [n_.value for n_ in jm.module.tree.body if isinstance(n_, (ast.Assign, ast.AnnAssign))
+                                                         and src(n_.targets[0] if isinstance(n_, ast.Assign) else n_.target) == nm_]
+            for d in ds_:
+                if isinstance(d, ast.Call) and call_name(d) == "CPPCodeSpecification":
+                    return d
+        return None
+
+    def is_coll(c):
+        v = kwarg(c, "cpp_return_is_collection") if c is not None else None
+        if v is None and c is not None and len(c.args) > 6:
+            v = c.args[6]
+        return isinstance(v, ast.Constant) and v.value is True
+    sf, sv = spec_behind(reg.get("getAttributeFloat", [])), spec_behind(reg.get("getAttributeVectorFloat", []))
+    ok = sf is not None and sv is not None and sf is not sv and not is_coll(sf) and is_coll(sv) and "getAttribute" in reg
     col.add("C11.R5", jm.short, "specifications-registered-under-their-names", ok, f"registrations {reg}", jm.loc)
 
     # ------------------------------------------------------------ R6 discovery
